@@ -226,7 +226,7 @@ Qed.
 (* a vehicle whose start level exceeds its capacity: no start solution *)
 Definition ex16_inp : input :=
   mkInput [] []
-          [mkIVehicle (Some [1%Z]) [2%Z] 0%Z None None None None None [] 0%Z true true]
+          [mkIVehicle (Some [1%Z]) [2%Z] 0%Z None None None None None [] 0%Z true true 0%Z 0%Z]
           [] [[0%Z; 0%Z]; [0%Z; 0%Z]] [[0%Z; 0%Z]; [0%Z; 0%Z]] 1 ex_opts [].
 
 Example ex16_no_start_solution :
